@@ -119,7 +119,22 @@ func init() {
 	})
 	reg(rt+"Observe", func(fr *frame, args []Value) Value {
 		e := fr.e
-		e.observed = append(e.observed, fmt.Sprintf("%s=%s", e.mustConcStr(args[0], "observe"), args[1].(*Term).String()))
+		e.observedT = append(e.observedT, obsEntry{e.mustConcStr(args[0], "observe"), []*Term{args[1].(*Term)}, false})
+		return nil
+	})
+	reg(rt+"ObserveBool", func(fr *frame, args []Value) Value {
+		e := fr.e
+		e.observedT = append(e.observedT, obsEntry{e.mustConcStr(args[0], "observe"), []*Term{e.tt.Ite(args[1].(*Term), e.tt.BV(64, 1), e.tt.BV(64, 0))}, false})
+		return nil
+	})
+	reg(rt+"ObserveStr", func(fr *frame, args []Value) Value {
+		e := fr.e
+		e.observedT = append(e.observedT, obsEntry{e.mustConcStr(args[0], "observe"), args[1].(Str).b, true})
+		return nil
+	})
+	reg(rt+"ObserveBytes", func(fr *frame, args []Value) Value {
+		e := fr.e
+		e.observedT = append(e.observedT, obsEntry{e.mustConcStr(args[0], "observe"), bytesOf(args[1]), true})
 		return nil
 	})
 	reg(rt+"All", func(fr *frame, args []Value) Value {
